@@ -106,6 +106,7 @@ def check_C01(tier, seed, res, replay=None):
     nt_cases = [c for c in cases if nontrivial_pair(c)]
     rng.shuffle(nt_cases)
     cli_arm.judge(res, rd, "incl", cli_arm.incl_events(nt_cases[:6000 if tier == "thorough" else 1200], rd), "TraceTA.tla")
+    binding_inclup(res, rd, tier, [c for c in cases if nontrivial_pair(c)], rng)
     # Layer 0: the oracle itself, cross-checked against the naive tree semantics (never depends on the code)
     shards = list(range(64)) if tier == "thorough" else [(seed * 7 + i * 4) % 64 for i in range(16)]
     m = vlib.tlc_sharded_check("TAcheck.tla", "TAcheck.cfg", 64, sorted(set(shards)))
@@ -122,6 +123,33 @@ def check_C01(tier, seed, res, replay=None):
         for cfg in ("InclUpLeaf3.cfg",):
             model_with_mutants(res, "InclUp.tla", cfg, [], "InclUp")
         model_with_mutants(res, "InclDown.tla", "InclDownCyc3.cfg", [], "InclDown")
+
+
+def binding_inclup(res, rd, tier, pool, rng):
+    """step-level binding of the Layer-2 model InclUp: executions of the real upward algorithm recorded through the guarded hook
+    (Start / Pick / Rule / Verdict) must be behaviours of the model (TraceInclUp). By DESIGN 2.7 a divergence is reported in the
+    evidence (model_binding) and as a MODEL-BINDING-DIVERGED line, never as a VIOLATION: a correct refactoring may change it."""
+    import p_hist
+    rng.shuffle(pool)
+    sample = [dict(c, op="incluptrace") for c in pool[:12000 if tier == "thorough" else 2500]]
+    for c in sample:
+        c.pop("split", None)
+    cf = os.path.join(rd, "bind.cases.ndjson")
+    vlib.write_ndjson(cf, sample)
+    items = []
+    for sh in vlib.drive(cf, os.path.join(rd, "bind.ev")):
+        for ev in vlib.read_ndjson(sh):
+            if ev.get("outcome") == "ok" and ev["res"]["events"]:
+                items.append(({"id": ev.get("id"), "kind": "inclup", "A": ev["A"], "B": ev["B"]}, ev["res"]["events"]))
+    if not items:
+        res.extra["model_binding"] = {"InclUp": "no step events recorded (hook absent?)"}
+        return
+    v = p_hist.tlc_validate_seq("TraceInclUp.tla", "TraceInclUp.cfg", items, rd, "bind", emit_reset=False)
+    res.add_validation(v)
+    res.extra["model_binding"] = {"InclUp": {"executions": len(items), "step_events_accepted": v["events"], "diverged": len(v["fails"]),
+                                             "first_divergence": ({"case": v["fails"][0][0], "at_event": v["fails"][0][2]} if v["fails"] else None)}}
+    if v["fails"]:
+        print("MODEL-BINDING-DIVERGED model=InclUp executions=%d diverged>=%d (evidence only, not a violation)" % (len(items), len(v["fails"])))
 
 
 def agreement_arm(res, rd, tier, seed):
